@@ -25,7 +25,7 @@ R_GAS = kB * N_A
 _REAL_EIGS = mtr.eigs
 # (which, sigma, tol): tol 1e-5 is the tolerance the shipped workflow configuration passes, 1e-10 a tight one
 SETTINGS = [("LR", None, 1e-10), ("LR", None, 1e-5), ("LM", 0.37, 1e-10), ("LM", 0.37, 1e-5), ("SR", 0.01, 1e-10),
-            ("LM", 1e-3, 1e-10)]
+            ("LM", 1e-3, 1e-10), ("SM", None, 1e-10)]
 
 
 def energies(arr, kind):
@@ -138,7 +138,8 @@ def run_case(case):
                 # metastable case: zero is simple but nearly degenerate -> only order and values are asserted
                 near_degenerate = dense_sorted[0] - dense_sorted[1] < 1e-7 * normQ
                 mid = 0.5 * (dense_sorted[2] + dense_sorted[3])     # a negative shift strictly inside the spectrum
-                for which, sigma, tol in (SETTINGS + [("LM", "mid34", 1e-10)] if not ek.startswith("two_basin") else
+                for which, sigma, tol in ([tuple(x) for x in case["settings"]] if case.get("settings") else
+                                          SETTINGS + [("LM", "mid34", 1e-10)] if not ek.startswith("two_basin") else
                                           [("LR", None, 1e-10), ("LM", 0.01, 1e-10), ("SR", 0.01, 1e-10)]):
                     if sigma == "mid34":
                         if min(abs(mid - dense_sorted)) < 1e-3 * abs(mid):
@@ -159,6 +160,8 @@ def run_case(case):
                         else:
                             expected_k = dense_sorted[:k]
                         for seed in (case["seeds"] if not ek.startswith("two_basin") else [0, 1, 2, 3, 4, 5]):
+                            if which == "SM" and seed != case["seeds"][0]:
+                                continue          # unshifted smallest-magnitude mode converges slowly: one start vector
                             slabel = "mid34" if near is not None else sigma
                             dkey = (f"C14|solver|which={which}|sigma={slabel}|tol={tol:g}|k={k}|n={n}|" + pre[4:] + tag +
                                     f"|seed={seed}")
@@ -244,6 +247,10 @@ def cases(tier):
     for o, t, cart in (("ico_5", "[0.2,0.3]", False), ("cube3D_4", "[0.1,0.25,0.3]", False)):
         out.append({"b": "randomQ_20", "o": o, "t": t, "cartesian": cart, "f": 1, "energies": ["smooth"], "Ts": [273.15],
                     "decompose": False, "ks": [6], "seeds": [0]})
+    # one large grid (2250 cells): shift-invert settings on a matrix whose factorisation has substantial fill-in
+    out.append({"b": "cube4D_30", "o": "ico_25", "t": "[0.1, 0.2, 0.3]", "cartesian": False, "f": 1, "energies": ["smooth"],
+                "Ts": [300.0], "decompose": True, "ks": [6], "seeds": [0],
+                "settings": [["LM", 0.37, 1e-10], ["SR", 0.01, 1e-10], ["LR", None, 1e-10]]})
     return out
 
 
